@@ -106,6 +106,7 @@ let fork_impl () : int =
 let () =
   let reg = Callback.register in
   reg "sim_errno" (fun () -> cur_errno ());
+  reg "sim_flag" (fun (s : string) -> flag s);
   reg "sim_malloc" (fun (n : int) -> int_of_z (run (sys_malloc (z_of_int n))));
   reg "sim_calloc" (fun (k : int) (n : int) -> int_of_z (run (sys_calloc (z_of_int k) (z_of_int n))));
   reg "sim_realloc" (fun (id : int) (n : int) -> int_of_z (run (sys_realloc (z_of_int id) (z_of_int n))));
@@ -120,7 +121,8 @@ let () =
           | 1 -> run (sys_setfd fd (z_of_int arg))
           | 2 -> run (sys_getfl fd)
           | 3 -> run (sys_setfl fd (z_of_int arg))
-          | 5 -> run (sys_dupfd fd (z_of_int arg))
+          | 5 -> run (sys_dupfd fd (z_of_int arg) true)
+          | 6 -> run (sys_dupfd fd (z_of_int arg) false)
           | _ -> flag "unmodelled-fcntl"; raise (Crash_exn 2)));
   reg "sim_close" (fun (fd : int) -> int_of_z (run (sys_close (z_of_int fd))));
   reg "sim_dup2" (fun (a : int) (b : int) -> int_of_z (run (sys_dup2 (z_of_int a) (z_of_int b))));
